@@ -117,9 +117,14 @@ def run_one(seed, tape, opts):
     s_listens = tape.choose(3, "s_listens") != 0
     r_listens = tape.choose(3, "r_listens") != 0
     relay_mode = tape.pick(("none", "none", "both", "both", "sender_only",
-                            "dead"), "relay")
+                            "dead", "two"), "relay")
     relay_s = relay_r = None
-    if relay_mode in ("both", "sender_only"):
+    if relay_mode == "two":
+        # each side was configured with its own relay: after the hint
+        # exchange both know two relays of equal priority
+        relay_s = w.start_relay(RELAY_PORT)
+        relay_r = w.start_relay(RELAY_PORT + 1)
+    elif relay_mode in ("both", "sender_only"):
         url = w.start_relay()
         relay_s = url
         relay_r = url if relay_mode == "both" else None
@@ -401,7 +406,7 @@ def run_one(seed, tape, opts):
     # positive: viable and undisturbed => both succeed
     disturbed = cut_budget[0] != 0 or any(not l.up for l in net.links) or \
         sim.notes.get("advance_with_io_pending", 0) > 0
-    viable = (s_listens or r_listens or relay_mode == "both")
+    viable = (s_listens or r_listens or relay_mode in ("both", "two"))
     if not viol and viable and not any(not l.up and l.ends[0].made
                                        for l in net.links) \
             and not sim.notes.get("advance_with_io_pending") and \
